@@ -329,6 +329,8 @@ WITNESSES = [
     ("ftl-unwrap-includes-comment", "ftl", "# note for k\nk = English\n", "",
      {"k": "# note for k\nk = Deutsch"}),
     ("serialize-ws-fold-joins-lines", "properties", "a = A\nb = B\n", "a = la  ", {"b": "nb"}),
+    ("serialize-ws-fold-ini-comment-leaves-line-start", "ini",
+     "a=A\n;c\n\nb=B\n", "a=la\n\n  b=lb\n", {}),
 ]
 
 
@@ -348,6 +350,14 @@ def run_witnesses(chk, only=None):
                           "why": "the placeholder of the untranslated first define is pruned, its "
                                  "newline stays: the output starts with a blank line, which "
                                  "DefinesParser (no `#filter emptyLines`) re-parses as Junk"})
+        if sig == "serialize-ws-fold-ini-comment-leaves-line-start" and text is not None:
+            junk = [e.all for e in walk_bytes(name, text.encode("utf-8")) if ckind(e) == K_JUNK]
+            if junk:
+                chk.fail(sig, {"fmt": fmt, "ref": ref_t, "old": old_t, "new_data": new_data},
+                         {"output": text, "junk": junk,
+                          "why": "prune keeps the LONGER whitespace: the old file's blank line + "
+                                 "key indentation beats the reference's line break in front of "
+                                 "the comment, which then does not start a line and is Junk"})
         if sig == "ftl-unwrap-includes-comment" and text is not None:
             ents = [e for e in walk_bytes(name, text.encode("utf-8")) if ckind(e) == K_ENTITY]
             if [e.unwrap() for e in ents] != [new_data["k"]]:
@@ -479,6 +489,96 @@ def run_ws_fold(chk, model):
         chk.correspond("WS-FOLD", cases, impl, model.call(reqs))
 
 
+INI_LINE_START = "serialize-ws-fold-ini-comment-leaves-line-start"
+
+
+def ini_line_start_repair(name, entries):
+    """the text with the blanks in front of every junk entry that starts with a comment
+    character taken away (and those in front of further comment lines inside the junk
+    text); None when a junk entry is of another kind"""
+    import re
+    pieces, prev = [], None
+    for e in entries:
+        if ckind(e) == K_JUNK:
+            if prev is None or ckind(prev) != c15.K_WHITE or e.all[:1] not in (";", "#"):
+                return None
+            w = pieces[-1]
+            stripped = w.rstrip(" \t")
+            if stripped == w or not stripped.endswith("\n"):
+                return None
+            pieces[-1] = stripped
+            pieces.append(re.sub(r"(?m)^[ \t]+(?=[;#])", "", e.all))
+        else:
+            pieces.append(e.all)
+        prev = e
+    return "".join(pieces)
+
+
+def run_ini_indent(chk, model):
+    """INI-INDENT: .ini triples (old file junk-free) whose entities without attached comment
+    are indented at random, in the reference and in the old file independently.  Ordinary
+    oracle.  Listed finding `serialize-ws-fold-ini-comment-leaves-line-start` (the C15 finding
+    merge-ws-fold-ini-comment-leaves-line-start seen through serialize = merge of reference
+    and old file): a `serialize-reparse-junk` failure is attributed to it only when every
+    junk entry starts with a comment character directly after a whitespace entry that ends in
+    blanks after a line break, and the output with those blanks taken away passes the oracle
+    (entities, values, no leak); a `serialize-idempotent` failure only when the second output
+    has junk of exactly that kind and, repaired, the first output's entities; anything else
+    stays a violation."""
+    rng = chk.rng
+    cases, impl, reqs = [], [], []
+    name = FNAME["ini"]
+    for _ in range(chk.n(400, 4000)):
+        case = gen_triple(rng, "ini")
+        if case["junk"]:
+            continue
+        for side, items in (("ref", case["ref_items"]), ("old", case["old_items"])):
+            if case[side]:
+                indents = {it[1]: rng.choice(["  ", "\t", "    ", " "]) for it in items
+                           if it[0] == "ent" and rng.random() < 0.35}
+                case[side] = render("ini", items, 0, indents)
+        ref = walk_bytes(name, case["ref"].encode("utf-8"))
+        old = walk_bytes(name, case["old"].encode("utf-8"))
+        res, text = serialize_impl(name, ref, old, case["new_data"])
+        chk.count(("ini", case["ref"], case["old"], sorted(case["new_data"].items(), key=str)))
+        desc = describe(case)
+        cases.append(desc)
+        impl.append(res)
+        reqs.append(model_request(name, ref, old, case["new_data"]))
+        if text is None:
+            chk.fail("serialize-raises", desc, res)
+            continue
+        sub = common.Check(chk.prop, chk.tier, chk.seed)
+        sub.known = []
+        oracle_serialize(sub, case, ref, text)
+        for f in sub.failures:
+            sig = f["signature"]
+            if sig == "serialize-reparse-junk":
+                repaired = ini_line_start_repair(name, walk_bytes(name, text.encode("utf-8")))
+                if repaired is not None:
+                    sub2 = common.Check(chk.prop, chk.tier, chk.seed)
+                    sub2.known = []
+                    oracle_serialize(sub2, case, ref, repaired)
+                    # (the oracle's last step serializes once more and meets the defect again)
+                    if all(g["signature"] == "serialize-idempotent" for g in sub2.failures):
+                        sig = INI_LINE_START
+            elif sig == "serialize-idempotent" and isinstance(f["detail"], dict) \
+                    and isinstance(f["detail"].get("second"), str):
+                # the first output is fine, serializing it again shows the defect
+                again = walk_bytes(name, f["detail"]["second"].encode("utf-8"))
+                repaired = ini_line_start_repair(name, again) \
+                    if any(ckind(e) == K_JUNK for e in again) else None
+                if repaired is not None:
+                    e2 = walk_bytes(name, repaired.encode("utf-8"))
+                    first = walk_bytes(name, text.encode("utf-8"))
+                    if not any(ckind(e) == K_JUNK for e in e2) and \
+                            entity_list("ini", e2) == entity_list("ini", first):
+                        sig = INI_LINE_START
+            chk.fail(sig, f["case"], f["detail"])
+    if model:
+        chk.correspond("INI-INDENT", cases, impl, model.call(reqs))
+
+
 def run(chk, runner_ok):
     rng = chk.rng
     model = Model("C16") if runner_ok else None
@@ -538,6 +638,7 @@ def run(chk, runner_ok):
     # ---- streams of the two listed findings (and only these families) ---------------
     run_ftl_unwrap(chk, model)
     run_ws_fold(chk, model)
+    run_ini_indent(chk, model)
     # ---- SEQUENCE: supported and unsupported names interleaved in this one process ------
     # (which names have a parser is known from how c15.seq_sequences builds them)
     cases, impl, reqs = [], [], []
